@@ -53,6 +53,23 @@ fn c01_coninfo_bytes() {
     core::mem::forget(r);
 }
 
+//@ id: coninfo_total
+//@ prop: C04
+//@ functions: insim/src/insim/contact.rs <ConInfo as BinRead>::read_options
+//@ statement: for ALL 2^128 values of the 16 bytes of a CON sub-struct (no assumption on spare bits): decoding returns a value or an error, never panics, and never reads past its 16 bytes
+//@ covers: 1
+//@ timeout: 900
+#[kani::proof]
+#[kani::stub(core::fmt::write, verif_fmt_ok)]
+fn c04_coninfo_total() {
+    let b: [u8; 16] = kani::any();
+    let mut c = Cursor::new(&b[..]);
+    let r = ConInfo::read_le(&mut c);
+    assert!(c.position() <= 16, "never reads past its 16 bytes");
+    kani::cover!(r.is_ok(), "decoded");
+    core::mem::forget(r);
+}
+
 //@ id: cimmode_total
 //@ prop: C04
 //@ functions: insim/src/insim/cim.rs <CimMode as BinRead>::read_options; insim/src/insim/cim.rs <CimSubModeNormal as From<u8>>::from; insim/src/insim/cim.rs <CimSubModeGarage as From<u8>>::from; insim/src/insim/cim.rs <CimSubModeShiftU as From<u8>>::from
